@@ -59,6 +59,25 @@ OfferBytes(s, i, tab) ==
   ELSE LET id == IdIn(tab, s[i]) IN
        IF id # 0 THEN VarU(id) \o OfferBytes(s, i + 1, tab) ELSE VarU(0) \o OfferBytes(s, i + 1, Append(tab, s[i]))
 OffersDistinct == \A s \in OfferSeqs : Len(OfferBytes(s, 1, <<>>)) = Len(s)      \* at most 3 objects: one byte per offer
+\* the object table and the string table of a stream are two tables: each numbers its own entries from 1 in
+\* first-occurrence order, whatever the other one holds.  Every sequence of up to four writes over the three objects
+\* and two deduplicated strings "s", "t" that holds at least one of each kind.
+Strs2 == {"S", "T"}
+StrBytes(x) == IF x = "S" THEN <<115>> ELSE <<116>>
+MixSeqs == {s \in UNION {[1..k -> Objs3 \cup Strs2] : k \in 2..4} : (\E i \in 1..Len(s) : s[i] \in Strs2) /\ (\E i \in 1..Len(s) : s[i] \in Objs3)}
+RECURSIVE MixBytes(_, _, _, _)
+MixBytes(s, i, tab, st) ==
+  IF i > Len(s) THEN <<>>
+  ELSE IF s[i] \in Strs2
+       THEN LET id == IdIn(st, s[i]) IN
+            IF id # 0 THEN VarI(-id) \o MixBytes(s, i + 1, tab, st) ELSE EncStrBytes(StrBytes(s[i])) \o MixBytes(s, i + 1, tab, Append(st, s[i]))
+       ELSE LET id == IdIn(tab, s[i]) IN
+            IF id # 0 THEN VarU(id) \o MixBytes(s, i + 1, tab, st) ELSE VarU(0) \o MixBytes(s, i + 1, Append(tab, s[i]), st)
+\* ... so removing the writes of one kind from a sequence removes their bytes and changes nothing else
+Only(s, kind) == SelectSeq(s, LAMBDA x : x \in kind)
+TablesIndependent == \A s \in MixSeqs :
+   Len(MixBytes(s, 1, <<>>, <<>>)) = Len(MixBytes(Only(s, Objs3), 1, <<>>, <<>>)) + Len(MixBytes(Only(s, Strs2), 1, <<>>, <<>>))
+Mixed == IF n = 1 /\ succ[1] = <<>> THEN {<<s, MixBytes(s, 1, <<>>, <<>>)>> : s \in MixSeqs} ELSE {}
 Offers == IF n = 1 /\ succ[1] = <<>> THEN {<<s, OfferBytes(s, 1, <<>>)>> : s \in OfferSeqs} ELSE {}
 
 \* sharing across the chunks of a record with a header: chunk 0 holds the graph, chunk 1 (an added field) is just a
@@ -71,5 +90,5 @@ Case(lab) == LET e == EncGraph(G(lab)) IN
    tampers |-> {<<t[1], t[2], Verdict([e.b EXCEPT ![t[1]] = t[2]])>> : t \in Tampered(e)},
    tails |-> {<<Len(e.b) - BackRefLen, t, Verdict(SubSeq(e.b, 1, Len(e.b) - BackRefLen) \o t)>> : t \in Tails(e)},
    cross |-> CrossCases(e)]
-EmitCases == PrintT(<<"REPLAY", ToJson([cases |-> {Case(lab) : lab \in Labelings}, offers |-> Offers])>>)
+EmitCases == PrintT(<<"REPLAY", ToJson([cases |-> {Case(lab) : lab \in Labelings}, offers |-> Offers, mixed |-> Mixed])>>)
 =============================================================================
